@@ -48,6 +48,7 @@ def newRows : List (QOp G) → Nat → List Nat → Nat → List (List Nat)
   | .meas _ false :: ops, m, t, i => newRows ops (m + 1) t i
   | .gate _ :: ops, m, t, i => newRows ops m t i
   | .cgate _ _ _ :: ops, m, t, i => newRows ops m t i
+  | .pgate _ _ :: ops, m, t, i => newRows ops m t i
 
 theorem headD_append_of_ne_nil (a b : List Nat) (h : a ≠ []) : (a ++ b).headD 0 = a.headD 0 := by
   cases a with
@@ -89,6 +90,16 @@ theorem pass_sim (S : Sem σ G) (ops : List (QOp G)) :
       simp only [wellFormed, Bool.and_eq_true] at hwf
       simp only [passQueue, newRows, ncoll] at hn ⊢
       rw [lastBit_ofHist, lastBit_ofHist, hag m' hwf.1]
+      exact ih m ok H K tq rest _ sn hwf.2 hn hag
+    | pgate f uses =>
+      simp only [wellFormed, Bool.and_eq_true] at hwf
+      simp only [passQueue, newRows, ncoll] at hn ⊢
+      have hargs : (uses.map fun e => lastBit (fun i => ofHist (H i)) e.1 e.2)
+          = uses.map fun e => lastBit (fun i => ofHist (K i)) e.1 e.2 := by
+        apply List.map_congr_left
+        intro e he
+        rw [lastBit_ofHist, lastBit_ofHist, hag e.1 (List.all_eq_true.mp hwf.1 e he)]
+      rw [hargs]
       exact ih m ok H K tq rest _ sn hwf.2 hn hag
     | meas ts c =>
       cases c with
@@ -270,6 +281,7 @@ def drawIdx : List (QOp G) → Nat → Nat → Nat → Option (Nat × List Nat)
   | .meas _ false :: ops, m, c, i => drawIdx ops (m + 1) c i
   | .gate _ :: ops, m, c, i => drawIdx ops m c i
   | .cgate _ _ _ :: ops, m, c, i => drawIdx ops m c i
+  | .pgate _ _ :: ops, m, c, i => drawIdx ops m c i
 
 theorem newRows_of_lt (ops : List (QOp G)) : ∀ (m : Nat) (t : List Nat) (i : Nat), i < m →
     newRows ops m t i = [] := by
@@ -280,6 +292,7 @@ theorem newRows_of_lt (ops : List (QOp G)) : ∀ (m : Nat) (t : List Nat) (i : N
     cases op with
     | gate g => exact ih m t i hi
     | cgate g m' j => exact ih m t i hi
+    | pgate f uses => exact ih m t i hi
     | meas ts c =>
       cases c with
       | false => exact ih (m + 1) t i (by omega)
@@ -301,6 +314,7 @@ theorem newRows_eq (ops : List (QOp G)) : ∀ (m c : Nat) (t : List Nat) (i : Na
     cases op with
     | gate g => exact ih m c t i
     | cgate g m' j => exact ih m c t i
+    | pgate f uses => exact ih m c t i
     | meas ts cl =>
       cases cl with
       | false => exact ih (m + 1) c t i
